@@ -232,7 +232,7 @@ pub fn work(ctx: &Ctx, rep: &mut Report) {
         rep.sample(format!("enumerated: {:?} on each of {} prior states", esc(&seqs[seqs.len() / 2]), priors.len()));
     }
     // (b) random prior histories (G1, incl. resizes and both screens) followed by random inert sequences
-    let n = ctx.scale(100_000, 1_000_000);
+    let n = ctx.scale(100_000, 4_000_000);
     let prof = Profile::general().with(T_RIS, 1);
     for u in ctx.units(n) {
         let mut r = Rng::derive(ctx.seed, &[0xC20, 2, u as u64]);
